@@ -1,7 +1,7 @@
 (* C03 — A successfully loaded module is structurally well-formed. *)
 From Coq Require Import ZArith List Lia Bool.
 Import ListNotations.
-From LX Require Import Base.ListAux Generated.Consts Model.ModuleWf Model.Gate Proofs.GateProofs Model.SeqScan Proofs.SeqScanProofs Model.ModLoad Proofs.ModLoadProofs.
+From LX Require Import Base.ListAux Generated.Consts Model.ModuleWf Model.Gate Proofs.GateProofs Model.SeqScan Proofs.SeqScanProofs Model.ModLoad Proofs.ModLoadProofs Model.C669Load Proofs.C669LoadProofs.
 Local Open Scope Z_scope.
 
 (* Whatever a loader leaves behind (arbitrary integers in every field), if the sanity gate, the epilogue and
@@ -123,3 +123,31 @@ Theorem protracker_module_is_wf : forall ptk file r m,
   Forall (fun b => 0 <= b <= 255) file -> mod_raw ptk file = Some r -> finish r = Some m -> wf_noseq m = true.
 Proof. exact mod_loaded_module_is_wf. Qed.
 Print Assumptions protracker_module_is_wf.
+
+(* The same for the Composer 669 loader (Model/C669Load.v: 32-bit sample fields whose loop start may come out negative, samples of
+   at most two bytes that are never loaded and keep their raw loop fields, order entries equal to the pattern count, break rows that
+   must lie below 64, the hio layer's behaviour at the end of the data): every byte string the loader accepts satisfies the
+   post-condition, so whatever the gate lets through is well-formed. *)
+Theorem c669_loader_establishes_post : forall file r,
+  Forall (fun b => 0 <= b <= 255) file -> c669_raw file = Some r -> loader_postb r = true.
+Proof. exact C669LoadProofs.c669_loader_establishes_post. Qed.
+Print Assumptions c669_loader_establishes_post.
+
+Theorem composer669_module_is_wf : forall file r m,
+  Forall (fun b => 0 <= b <= 255) file -> c669_raw file = Some r -> finish r = Some m -> wf_noseq m = true.
+Proof. exact c669_loaded_module_is_wf. Qed.
+Print Assumptions composer669_module_is_wf.
+
+(* non-vacuity: a 669 file with one pattern, two orders and one four-byte sample whose loop start is 0x80000000 (negative once
+   stored in an int) and whose loop end is 3: the loader accepts it, the sample loader clamps the loop to 0..3, the gate lets it
+   through and the result is well-formed *)
+Example c03_669_nonvacuous :
+  let file := [105; 102] ++ repeat 32 108 ++ [1; 1; 0] ++ ([0; 1] ++ repeat 255 126) ++ repeat 6 128 ++ repeat 0 128 ++
+              (repeat 65 13 ++ [4; 0; 0; 0; 0; 0; 0; 128; 3; 0; 0; 0]) ++ repeat 7 1536 ++ [1; 2; 3; 4] in
+  match c669_raw file with
+  | Some r => loader_postb r = true /\ d_len (r_m r) = 2 /\
+              map (fun s => (sm_len s, sm_lps s, sm_lpe s, sm_data s)) (d_smps (r_m r)) = [(4, 0, 3, true)] /\
+              match finish r with Some m => wf_noseq m = true | None => False end
+  | None => False
+  end.
+Proof. vm_compute. repeat split; reflexivity. Qed.
